@@ -582,7 +582,8 @@ def check_uri(
     ref = M.ref_uri(scheme, host, port, args)
 
     def bad(clause: str, msg: str) -> None:
-        res.violate(f"C20|from_parts|{clause}|{cls}", f"{scheme} {host!r} {port} {args}: {msg}", rd)
+        sig = "C20|from_parts|qs_flat" if clause == "qs_flat" else f"C20|from_parts|{clause}|{cls}"
+        res.violate(sig, f"{scheme} {host!r} {port} {args}: {msg}", rd)
 
     ok, u = call(TargetURI.from_parts, scheme, host, port, dict(args))
     if not ok:
